@@ -386,16 +386,19 @@ func genReload(r *rand.Rand, id string, size int, total int) []string {
 		for k := g.pick(3); k > 0; k-- {
 			write(p)
 		}
+		orphan := false
 		if kind == "log" && g.pick(3) == 0 {
 			// a device error on the head write: the write must NOT be acknowledged (its entry is in
 			// the log but nothing durable points to it); whatever is acknowledged must come back
 			g.add("failput %d", p)
 			write(p)
 			if g.pick(2) == 0 {
-				write(p)
+				write(p) // a later successful write names the orphan as its parent: it is covered again
+			} else {
+				orphan = true // the entry of the failed write lives in memory only: it must not travel
 			}
 		}
-		if g.pick(3) == 0 {
+		if g.pick(3) == 0 && !orphan {
 			deliver(q, p)
 		}
 		g.add("obs %d", p)
